@@ -602,6 +602,10 @@ def kernel_crosscheck(ctx, cases, outs):
     for (a, b), e, g in zip(pats, exp, got):
         if g != e:
             return "PrimFloat/bit-pattern validation differs from NumPy on (%#x, %#x): coq %s numpy %s" % (a, b, g, e), n
+        # on non-negative doubles the integer order of the bit patterns is the float order (used by the
+        # binary64 instance of the checker and by key_monotone)
+        if a < 2 ** 63 and b < 2 ** 63 and g[5] != (1 if a < b else 0):
+            return "bit-pattern order differs from PrimFloat.ltb on (%#x, %#x)" % (a, b), n
     # the premise of C03_prop_check_b64_sound (float addition of non-negatives is monotone) on random
     # triples, including neighbours one ulp apart and sums that round: evidence, not proof
     tri = []
@@ -645,7 +649,9 @@ MANIFEST = {
         "integer instance, under the single stated hypothesis 'binary64 addition of non-negatives is monotone' for the "
         "floating-point instance; (2) an executable PrimFloat model of propagate.py/_propagate.pyx/heap.pxd, operation "
         "for operation: heap push/pop keep the weak heap invariant on the distance key and the multiset of rows, pop "
-        "returns a row of minimal key, the two-int32 key is monotone but not strictly (the cause of finding F7). The "
+        "returns a row of minimal key, the two-int32 key is monotone but not strictly (the cause of finding F7); the "
+        "main loop never runs out of fuel, every distance it reports is the cost of a real mask path from a masked "
+        "seed and every label is that of a masked seed connected through the mask (both key layouts). The "
         "model is tied to the code by bit-exact equality of labels and distances (IEEE bit patterns) evaluated inside "
         "Coq by vm_compute; no float is extracted."),
     "level_note": (
